@@ -158,8 +158,14 @@ func TestVerifPrune(t *testing.T) {
 	b, _ := os.ReadFile(in)
 	var all struct {
 		Scenarios []struct {
-			Files  []struct{ Name string; KB int }
-			Others []struct{ Name string; KB int }
+			Files []struct {
+				Name string
+				KB   int
+			}
+			Others []struct {
+				Name string
+				KB   int
+			}
 		} `json:"scenarios"`
 	}
 	if err := json.Unmarshal(b, &all); err != nil {
